@@ -114,7 +114,10 @@ def check(spec, ctx):
         deg[a] = deg.get(a, 0) + 1
         deg[b] = deg.get(b, 0) + 1
     nontrivial = any(len(c) >= 3 and any(deg.get(v, 0) < len(c) - 1 for v in c) for c in exp)
+    ids_before = [id(e) for e in events]
     out = ctx.call(spec, f"group_sound_events(n={n})", group_sound_events, events, cmp)
+    if [id(e) for e in events] != ids_before:
+        ctx.fail("group_sound_events reordered or modified the input list", spec, None, None, kind="input_mutated")
     ctx.case(spec, nontrivial=nontrivial, labels=[f"n={n}" if n <= 6 else "n>6", f"components={min(len(exp), 5)}{'+' if len(exp) > 5 else ''}"], out={"groups": len(out)})
 
     if not isinstance(out, list) or not all(isinstance(s, data.Sequence) for s in out):
